@@ -567,6 +567,7 @@ func (it *Interp) copyCells(dst, src *Slice, count *Term) {
 	if maxN == 0 {
 		return
 	}
+	it.steps += maxN * ec / 4 // bulk copies count towards the instruction budget
 	// read everything first
 	vals := make([]Value, maxN*ec)
 	for k := 0; k < maxN*ec; k++ {
